@@ -11,6 +11,7 @@ from vlib import Check, HarnessError, target, build, run_shards
 target("rc_probe", ["probes/rc_probe.cpp"])
 target("valid_probe", ["probes/valid_probe.cpp", "ref/refcodec.cpp"])
 target("codec_probe", ["probes/codec_probe.cpp", "ref/refcodec.cpp", "common/assert_handler.cpp"])
+target("fuzz_decoders", ["probes/codec_probe.cpp", "ref/refcodec.cpp", "common/assert_handler.cpp"], flags=["-DVERIF_FUZZ", "-fsanitize=fuzzer-no-link"], link=["-fsanitize=fuzzer"])
 target("pid_probe", ["probes/pid_probe.cpp", "common/assert_handler.cpp"])
 target("mutex_probe", ["probes/mutex_probe.cpp", "common/assert_handler.cpp"])
 
@@ -136,6 +137,56 @@ def c11(tier, seed):
 
 
 # ------------------------------------------------------------------------------------------ C17 / C18 / C19
+def _fuzz_part(ck, tier, seed):
+    """Coverage-guided fuzzing (libFuzzer) of the same decoder harness: 16 independent jobs, fixed number of executions."""
+    import re, subprocess, glob
+    exes = build(["fuzz_decoders", "codec_probe"])
+    d = _tmp("C19-fuzz")
+    corpus = os.path.join(d, "corpus"); os.makedirs(corpus, exist_ok=True)
+    vlib.run_proc([exes["codec_probe"], "--mode", "corpus", "--dir", corpus, "--seed", str(seed), "--out", os.path.join(d, "corpus.json")], 120)
+    runs = 400000 if tier == "thorough" else 25000
+    jobs = []
+    for i in range(16):
+        art = os.path.join(d, "art%d" % i); os.makedirs(art, exist_ok=True)
+        cdir = os.path.join(d, "c%d" % i); shutil.copytree(corpus, cdir)
+        cmd = [exes["fuzz_decoders"], "-runs=%d" % runs, "-seed=%d" % (seed * 100 + i + 1), "-max_len=600", "-timeout=20", "-rss_limit_mb=4096",
+               "-artifact_prefix=%s/" % art, "-print_final_stats=1", cdir]
+        jobs.append((i, art, cmd))
+    import concurrent.futures as cf
+    def one(j):
+        i, art, cmd = j
+        rc, so, se, dt = vlib.run_proc(cmd, 3000)
+        return i, art, rc, se
+    total = 0; cov = 0; feats = 0
+    with cf.ThreadPoolExecutor(max_workers=16) as ex:
+        for i, art, rc, se in ex.map(one, jobs):
+            m = re.search(r"stat::number_of_executed_units:\s*(\d+)", se)
+            n = int(m.group(1)) if m else 0
+            total += n
+            for mm in re.finditer(r"cov: (\d+) ft: (\d+)", se):
+                cov = max(cov, int(mm.group(1))); feats = max(feats, int(mm.group(2)))
+            if rc != 0:
+                arts = glob.glob(os.path.join(art, "*"))
+                data = open(arts[0], "rb").read() if arts else b""
+                m = re.search(r"FUZZ-VIOLATION key=(\S+) what=([^\n]*)", se)
+                key = m.group(1) if m else "C19:fuzz:" + vlib.san_signature(se)
+                what = (m.group(2) if m else "fuzz target died: " + vlib.san_signature(se)) + " | input: " + data[:80].hex(" ")
+                ck.violations.append(dict(key=key, what=what, replay_text="input (hex): %s\n\n%s" % (data.hex(" "), se[-6000:])))
+            if rc == -999:
+                ck.harness_errors.append("fuzz job %d timed out" % i)
+    ck.evaluations += total
+    ck.counters["fuzz.executions"] = total
+    ck.counters["fuzz.coverage_edges"] = cov
+    ck.counters["fuzz.features"] = feats
+    ck.distinct += feats      # libFuzzer features (edge x hit-count buckets) reached by the best job = distinct behaviours of the decoders
+    ck.rules.append("[fuzz] libFuzzer (coverage guided, 16 jobs x %d executions, seeded with well-formed server packets of every type) on the decoder "
+                    "harness of codec_probe: same guard-page / sanitizer / reference-differential oracles; distinct = libFuzzer features of the best job" % runs)
+    ck.samples.append({"part": "fuzz", "case": {"jobs": 16, "runs_per_job": runs, "executions": total, "coverage_edges": cov}})
+    shutil.rmtree(d, ignore_errors=True)
+    if total < runs:
+        ck.harness_errors.append("fuzz target executed only %d inputs" % total)
+
+
 def c17(tier, seed):
     ck = Check("C17", tier, seed, "exploration")
     _probe_part(ck, "codec_probe", tier, seed,
@@ -180,6 +231,7 @@ def c19(tier, seed):
     ck.assumptions += ["don't-care (no verdict): duplicate single-valued properties, non-minimal variable byte integers, ill-formed UTF-8 in "
                        "received strings, reserved flag bits, packet id 0, trailing bytes after the property list, absent Property Length",
                        "unit level only in this round: framing, handshake and whole-client behaviour under hostile bytes are decided by the simulator part when present"]
+    _fuzz_part(ck, tier, seed)
     _sim_part(ck, "C19", tier, seed,
               "real client vs hostile broker bytes in four phases (instead of CONNACK, right after CONNACK, with requests awaiting replies, mid "
               "QoS 2): structured length-field mutations and byte mutations of every server packet type, aimed at outstanding packet ids; each "
